@@ -29,3 +29,61 @@ for _cls in ("BallTree", "KDTree"):
                  returns="none",
                  ensures=_ens,
                  raises=[("ValueError", str(_kind == "bogus"), "iff")])
+
+
+# ---- query / query_radius: what is handed to the sklearn tree and what is done with its answer (C11, dataflow) --------------------------
+# "nearest first": the wrapped query is asked with the caller's flags (sort_results in particular), on the tree of the element
+# kind in force, with the query points prepared for the tree's coordinate system; indices come back as they are (standard dtype,
+# squeezed for a single point), distances of a spherical tree in degrees unless radians were asked for.
+_N = "uxarray.grid.neighbors."
+for _cls in ("BallTree", "KDTree"):
+    _Q = f"{_N}{_cls}."
+    for _cs in ("cartesian", "spherical"):
+        _prep = (f"summary('{_N}_prepare_xyz_for_query', coords)" if _cs == "cartesian" else
+                 f"summary('{_N}_prepare_xy_for_query', coords, in_radians, self.distance_metric)")
+        _raw = f"meth('query', summary('{_Q}_current_tree', self), {_prep}, k, return_distance, dualtree, breadth_first, sort_results)"
+        _one = f"same(getitem(attr({_prep}, 'shape'), 0), 1)"
+        _sq = lambda t: f"meth('squeeze', {t})"                                                     # noqa: E731
+        _ind_d = f"lib('numpy.asarray', item({_raw}, 1), dtype=INT_DTYPE)"
+        _ind_o = f"lib('numpy.asarray', {_raw}, dtype=INT_DTYPE)"
+        _d = f"item({_raw}, 0)"
+        _deg = (lambda t: f"lib('numpy.rad2deg', {t})") if _cs == "spherical" else (lambda t: t)  # noqa: E731
+        contract(_Q + "query", props=["C11"], variant=_cs,
+                 params={"self": f"obj('{_cls}')", "coords": "opaque", "k": "int", "return_distance": "bool", "in_radians": "bool",
+                         "dualtree": "opaque", "breadth_first": "opaque", "sort_results": "opaque"},
+                 requires=[f"same(self.coordinate_system, '{_cs}')"],
+                 returns="opaque",
+                 ensures=[
+                     # indices only
+                     f"implies(not return_distance and {_one}, same(result, {_sq(_ind_o)}))",
+                     f"implies(not return_distance and not {_one}, same(result, {_ind_o}))",
+                     # distances and indices
+                     f"implies(return_distance, is_tuple(result))",
+                     f"implies(return_distance and {_one}, same(item(result, 1), {_sq(_ind_d)}))",
+                     f"implies(return_distance and not {_one}, same(item(result, 1), {_ind_d}))",
+                 ] + ([
+                     f"implies(return_distance and {_one} and in_radians, same(item(result, 0), {_sq(_d)}))",
+                     f"implies(return_distance and {_one} and not in_radians, same(item(result, 0), {_deg(_sq(_d))}))",
+                     f"implies(return_distance and not {_one} and in_radians, same(item(result, 0), {_d}))",
+                     f"implies(return_distance and not {_one} and not in_radians, same(item(result, 0), {_deg(_d)}))",
+                 ] if _cs == "spherical" else [
+                     f"implies(return_distance and {_one}, same(item(result, 0), {_sq(_d)}))",
+                     f"implies(return_distance and not {_one}, same(item(result, 0), {_d}))",
+                 ]),
+                 options={"abstract": True, "summaries": [_N + "_prepare_xyz_for_query", _N + "_prepare_xy_for_query", _Q + "_current_tree"]},
+                 raises=[("AssertionError", "k < 1 or k > self._n_elements", "iff")])
+
+    # query_radius(count_only=True): the radius reaches the sklearn tree in the tree's unit (radians for a spherical tree)
+    for _cs in ("cartesian", "spherical"):
+        _prep = (f"summary('{_N}_prepare_xyz_for_query', coords)" if _cs == "cartesian" else
+                 f"summary('{_N}_prepare_xy_for_query', coords, in_radians, self.distance_metric)")
+        # BallTree documents r "in degrees" (whatever the unit of the query points); KDTree takes it in the unit of the query points
+        _r = "r" if _cs == "cartesian" else ("deg2rad(r)" if _cls == "BallTree" else "ite(in_radians, r, deg2rad(r))")
+        contract(_Q + "query_radius", props=["C11"], variant=_cs + ",count_only",
+                 params={"self": f"obj('{_cls}')", "coords": "opaque", "r": "real", "return_distance": "opaque", "in_radians": "bool",
+                         "count_only": "True", "sort_results": "opaque"},
+                 requires=[f"same(self.coordinate_system, '{_cs}')"],
+                 returns="opaque",
+                 ensures=[f"same(result, meth('query_radius', summary('{_Q}_current_tree', self), {_prep}, {_r}, return_distance, True, sort_results))"],
+                 options={"abstract": True, "summaries": [_N + "_prepare_xyz_for_query", _N + "_prepare_xy_for_query", _Q + "_current_tree"]},
+                 raises=[("AssertionError", "r < 0", "iff")])
